@@ -309,6 +309,30 @@ func (c06) Run(c core.Case, w *core.Worker) core.Result {
 			continue
 		}
 		res.Add("merges_ok", 1)
+		// the boundary recorded in the marker; without racing writers it must be the id
+		// right after the newest file that existed when Merge was called; racing writers
+		// may rotate before Merge takes the lock, so there the marker is authoritative
+		if mb, err := os.ReadFile(filepath.Join(mergeDir, "000000000.merge-finished")); err == nil {
+			if raws, _, e2 := vfmt.ScanRaw(mb, 0); e2 == nil && len(raws) == 1 && len(raws[0].Payload) == 4 {
+				mk := int(raws[0].Payload[0]) | int(raws[0].Payload[1])<<8 | int(raws[0].Payload[2])<<16 | int(raws[0].Payload[3])<<24
+				if cc.Mode == "racing" {
+					if mk < boundary {
+						fail("marker", fmt.Sprintf("marker records boundary id %d, but files up to id %d existed before Merge was called", mk, boundary-1))
+						break
+					}
+					boundary = mk
+				} else if mk != boundary {
+					fail("marker", fmt.Sprintf("marker records boundary id %d, expected %d (first file id that did not take part)", mk, boundary))
+					break
+				}
+			} else {
+				fail("marker", "Merge returned nil but the finished marker does not decode")
+				break
+			}
+		} else {
+			fail("marker", "Merge returned nil but there is no finished marker: "+err.Error())
+			break
+		}
 		// adopting restart
 		if !s.Exec(core.Op{Kind: "restart"}) {
 			break
